@@ -8,7 +8,7 @@ BOUNDS = {
     'quick': 'extents<I,E...>: rank 0..2 every static/dynamic pattern with static values 0..4, rank 3 every static/dynamic mask plus zero/one-extent shapes (I = int); '
              'I = int8/size_t: every static/dynamic mask of rank 0..3; dynamic extents symbolic 0..4; multi-indices symbolic over the whole index type (in range); '
              'layout_stride strides symbolic 1..16 with a symbolic ordering permutation; submdspan_extents slice-kind pattern symbolic (full/index/constant pair); mdarray over array<int, prod(max extents) capped at 32>',
-    'thorough': 'as quick plus: rank 3 every pattern with static values 0..4 (I = int), rank 4 every static/dynamic mask plus zero/one-extent shapes, all eight index types int8..uint64 on every static/dynamic mask of rank 0..2 and three masks of rank 3 (int8 and size_t: every mask of rank 0..3, four of rank 4); '
+    'thorough': 'as quick plus: rank 3 every pattern with static values in {0,1,3} (I = int), rank 4 every static/dynamic mask plus zero/one-extent shapes, all eight index types int8..uint64 on every static/dynamic mask of rank 0..2 and three masks of rank 3 (int8 and size_t: every mask of rank 0..3, four of rank 4); '
                 'dynamic extents symbolic 0..8 and strides 1..64 for rank <= 2, 0..4 / 1..16 for rank 3, 0..3 / 1..8 for rank 4; mdarray container <= 64 elements',
 }
 ASSUMPTIONS = [
@@ -42,7 +42,7 @@ def shapes(tier):
         for m in itertools.product([0, 1], repeat=r):
             yield tuple(D if m[k] else rot[k] for k in range(r))
     special3 = [(0, D, 3), (D, 0, 2), (2, D, 0), (1, 1, 1), (0, 0, 0), (4, 4, 4), (D, 1, D), (1, D, 2)]
-    special4 = [(0, D, 3, 2), (D, 2, 0, D), (1, 1, 1, 1), (4, 4, 4, 4), (2, D, 1, 3), (D, D, 0, D)]
+    special4 = [(0, D, 3, 2), (D, 2, 0, D), (1, 1, 1, 1), (2, 2, 2, 2), (2, D, 1, 3), (D, D, 0, D)]
     out = []
     seen = set()
 
@@ -57,7 +57,7 @@ def shapes(tier):
             add('int', ex)
         its = ['signed char', 'unsigned long']
     else:
-        for ex in itertools.product(vals, repeat=3):
+        for ex in list(masks(3)) + special3 + list(itertools.product([0, 1, 3, D], repeat=3)):
             add('int', ex)
         for ex in list(masks(4)) + special4:
             add('int', ex)
@@ -94,6 +94,13 @@ def queries(tier, prop='C19'):
         sp = 1   # product of the static extents
         for x in ex:
             sp *= 1 if x == D else x
+        # a strided layout of the static part alone needs a stride >= the product of all but one static extent
+        st = [x for x in ex if x != D and x != 0]
+        if st:
+            p = 1
+            for x in st:
+                p *= x
+            smax = max(smax, min(256, p // min(st)))
         # mdarray container size: all max extents if that fits capmax, never less than the static part (q_mda assumes the index space fits)
         cap = min(sp * dmax ** sum(1 for x in ex if x == D), max(capmax, sp))
         oit = 'int' if it in ('long', 'unsigned long') else 'long'
